@@ -83,6 +83,7 @@ type Options struct {
 	WantStacks       bool          // capture full stacks of blocked goroutines at the end
 	NoExplore        bool          // start outside the explored window until BeginExplore
 	Trace            bool          // keep a textual event log
+	SpinLimit        int           // >0: end the execution (EndSteps, Livelock) after this many steps without the virtual clock advancing
 	BoundAll         bool          // every departure from the default schedule costs one deviation, also at blocking points (delay bounding)
 	NoTimerDeviation bool          // timers never fire while a goroutine can run (no I/O stalls)
 }
@@ -510,6 +511,11 @@ func Active() bool { return S != nil }
 func (s *Sched) reschedule(from *G, exiting bool) {
 	for {
 		s.res.Steps++
+		if s.opt.SpinLimit > 0 && s.res.Steps-s.lastClockStep > s.opt.SpinLimit {
+			// so many visible steps within one instant of virtual time: somebody spins
+			s.res.Livelock = true
+			s.end(EndSteps)
+		}
 		if s.res.Steps > s.opt.MaxSteps {
 			s.res.Livelock = s.res.Steps-s.lastClockStep > s.opt.MaxSteps/2
 			s.end(EndSteps)
